@@ -14,7 +14,8 @@
 //! op (L (N 6))                                resume the suspended request and complete it: its reply, `(L)` if none
 //!
 //! Every page is served by the fixture handlers of c00pipe.rs (kind 3 echoes the transformed tuple); kind 5, known
-//! here only, echoes "?<query>" and then the transformed tuple (Model/Vary.v `compute_c05`).
+//! here only, echoes "?<query>" and then the transformed tuple; kind 6, known here only, is kind 3 with a server
+//! cache preference that depends on the variant (None for some tuples) (Model/Vary.v `compute_c05`).
 use crate::c00pipe as pipe;
 use crate::xval::X;
 use kvarn::prelude::*;
@@ -276,6 +277,24 @@ pub fn customize(g2: Arc<Gate>) -> impl Fn(&[(String, X)], &mut Host, &Arc<pipe:
                                 s5.body.extend_from_slice(q.as_bytes());
                             }
                             pipe::handler_response(&s5, sh, req)
+                        } else if spec.kind == 6 {
+                            // kind 6: kind 3 whose variants differ in cacheability: the handler declares
+                            // ServerCachePreference::None when the first component it renders is empty or starts
+                            // with 'n', 'z' or '0' (Model/Vary.v `picky_refused`)
+                            let mut s6 = (**spec).clone();
+                            s6.kind = 3;
+                            if let Some((name, xf, default)) = spec.tuple.first() {
+                                let v = req
+                                    .headers()
+                                    .get(pipe::leak(name))
+                                    .and_then(|h| h.to_str().ok())
+                                    .map(|s| pipe::xform(*xf, s))
+                                    .unwrap_or_else(|| String::from_utf8_lossy(default).into_owned());
+                                if v.is_empty() || matches!(v.as_bytes()[0], b'n' | b'z' | b'0') {
+                                    s6.spref = 0;
+                                }
+                            }
+                            pipe::handler_response(&s6, sh, req)
                         } else {
                             pipe::handler_response(spec, sh, req)
                         }
